@@ -512,3 +512,511 @@ def shrink(case_text, still_fails, budget=40):
                 prog.insert(i, saved)
             i -= 1
     return sx(tree)
+
+
+# ====================================================================== cyclic programs (C18, C20 stage 2)
+# Cases for /verif/harness-par/src/cyc.rs (bin cyc_par): the cycle engine's families (1 fix,
+# 2 fixjoin, 3 fallback; 0 plain leaves, 4 nocycle callers) and DSL, read phases
+# `(par (T (get F K)..) ..)` entered at DIFFERENT cycle members, writes between the rounds that
+# reshape the cycles; `(wpar MODE AT (T ..).. (W write))` = readers cancelled (MODE 1) or
+# panicking (MODE 2) at the AT-th body execution while the main handle writes.
+#   * specification: the flattened case through ocaml/cycle_driver.ml — its `V` column is
+#     `kleene` / `spec_fallback` of the snapshot at that point (history independent);
+#   * single-threaded baseline on the SAME crate: the harness' own `REF` run (same history, one
+#     thread, fresh database): a difference from the specification that REF shows too is the
+#     cycle engine's known finding (DESIGN 0.3), a difference only a multi-threaded schedule
+#     shows is a C18 violation;
+#   * certificate: the `G` records (settled memos of the multi-threaded final state, read back
+#     without execution) are evaluated by ocaml/ccycle_driver.ml (extracted mh_cert_fix /
+#     mh_cert_fb of coq/CCycle/Model.v), so that C18_values_certified applies to that state.
+
+CYC_BIN = "cyc_par"
+FIXF, FIXJOINF, FALLBACKF, PLAINF, NOCYCLEF = 1, 2, 3, 0, 4
+CYC_FAMS = (FIXF, FIXJOINF, FALLBACKF)
+MASKS18 = [0, 1, 2, 3, 4, 5, 8, 12, 16, 48, 64, 129, 255]
+
+
+def tree_section(tree, name):
+    return next(x for x in tree[2:] if isinstance(x, list) and x and x[0] == name)
+
+
+class Gen18:
+    """profile 'fix' (specification kleene) or 'fallback' (specification spec_fallback)."""
+
+    def __init__(self, rng, profile, size):
+        from . import cycleengine as ce
+        self.r = rng
+        self.profile = profile
+        self.size = size
+        self.cg = ce.CGen(rng, "cycles" if profile == "fix" else "fallback", size)
+        self.spec = "kleene" if profile == "fix" else "fallback"
+        self.ops = ["or", "and"] if profile == "fix" else ["or", "and", "add", "max", "min"]
+
+    # ---- programs
+    def fam(self):
+        return self.r.choice([FIXF, FIXJOINF]) if self.profile == "fix" else FALLBACKF
+
+    def inp(self, ni):
+        return ["in", self.r.randrange(ni), self.r.randrange(3)]
+
+    def mask(self, e, ni):
+        """optionally intersect / unite with an input or a literal mask"""
+        r = self.r
+        c = r.random()
+        if c < 0.3:
+            return e
+        if c < 0.6:
+            return ["op", "and", e, self.inp(ni)]
+        if c < 0.8:
+            return ["op", "or", e, self.inp(ni)]
+        return ["op", r.choice(self.ops), e, ["lit", r.choice(MASKS18)]]
+
+    def guard(self, e, ni):
+        """input-conditional: the cycle edge exists only while an input is non-zero"""
+        r = self.r
+        if r.random() < 0.45:
+            cond = self.cg.in_expr(ni, 1)
+            alt = ["lit", r.choice(MASKS18)] if r.random() < 0.6 else self.inp(ni)
+            return ["if", cond, e, alt] if r.random() < 0.8 else ["if", cond, alt, e]
+        return e
+
+    def nested_program(self):
+        """outer -> inner -> step -> {inner, outer} (+ optionally a second inner cycle and a side
+        cycle through the outer head): the shape in which ownership of the inner head moves to
+        the thread of the outer head."""
+        r = self.r
+        nk = r.randint(3, 4)
+        ni = r.randint(2, 3)
+        keys = list(range(nk))
+        r.shuffle(keys)
+        ko, kin, ks = keys[0], keys[1], keys[2]
+        fo, fi, fs = self.fam(), self.fam(), self.fam()
+        call = lambda f, k: ["call", f, ["lit", k]]
+        nodes = {}
+        nodes[(fo, ko)] = self.mask(call(fi, kin), ni)
+        nodes[(fi, kin)] = self.mask(call(fs, ks), ni)
+        back = ["op", "or", call(fi, kin), self.guard(call(fo, ko), ni)]
+        if r.random() < 0.3:
+            back = ["op", "or", self.guard(call(fo, ko), ni), call(fi, kin)]
+        nodes[(fs, ks)] = self.mask(["op", "or", back, self.inp(ni)], ni)
+        members = [(fo, ko), (fi, kin), (fs, ks)]
+        if nk > 3 or r.random() < 0.5:
+            # a further member: either a second nested cycle under `step` or a side cycle of `outer`
+            kx = keys[3] if nk > 3 else r.choice(keys[:3])
+            fx = self.fam()
+            while (fx, kx) in nodes:
+                fx = [f for f in ((FIXF, FIXJOINF) if self.profile == "fix" else (FALLBACKF,)) if (f, kx) not in nodes]
+                if not fx:
+                    fx = None
+                    break
+                fx = fx[0]
+            if fx is not None:
+                if r.random() < 0.5:
+                    nodes[(fx, kx)] = self.mask(self.guard(call(fs, ks), ni), ni)
+                    nodes[(fs, ks)] = ["op", "or", nodes[(fs, ks)], call(fx, kx)]
+                else:
+                    nodes[(fx, kx)] = self.mask(self.guard(call(fo, ko), ni), ni)
+                    nodes[(fo, ko)] = ["op", "or", nodes[(fo, ko)], call(fx, kx)]
+                members.append((fx, kx))
+        tops = []
+        if r.random() < 0.4:
+            m = r.choice(members)
+            tops.append((NOCYCLEF, 0))
+            nodes[(NOCYCLEF, 0)] = self.mask(call(*m), ni)
+        nl = [["node", f, k, e] for (f, k), e in sorted(nodes.items())]
+        ival = [[i, f, r.choice(MASKS18[1:])] for i in range(ni) for f in range(3)]
+        return nk, ni, nl, ival, [], members, tops
+
+    def random_program(self):
+        """a program of the cycle engine's generator (random cyclic call graph, input-computed keys,
+        input-controlled branches)"""
+        tree = se.parse_sx(self.cg.case("x"))
+        cfg = tree_section(tree, "cfg")
+        nk = int(next(c for c in cfg[1:] if c[0] == "nk")[1])
+        ni = int(next(c for c in cfg[1:] if c[0] == "ni")[1])
+        nl = tree_section(tree, "prog")[1:]
+        members = [(int(n[1]), int(n[2])) for n in nl if int(n[1]) in CYC_FAMS]
+        tops = [(int(n[1]), int(n[2])) for n in nl if int(n[1]) == NOCYCLEF]
+        return nk, ni, nl, tree_section(tree, "ival")[1:], tree_section(tree, "idur")[1:], members, tops
+
+    def program(self):
+        return self.nested_program() if self.r.random() < 0.55 else self.random_program()
+
+    # ---- histories
+    def group(self, members, tops, nth=None):
+        """2-3 threads, each entering at a DIFFERENT member first"""
+        r = self.r
+        nth = nth or (r.choice([2, 2, 3]) if len(members) >= 3 else 2)
+        firsts = r.sample(members, min(nth, len(members)))
+        while len(firsts) < nth:
+            firsts.append(r.choice(members + tops))
+        ts = []
+        for q in firsts:
+            gets = [["get", q[0], q[1]]]
+            if r.random() < 0.35:
+                q2 = r.choice(members + tops)
+                gets.append(["get", q2[0], q2[1]])
+            ts.append(["T"] + gets)
+        return ["par"] + ts
+
+    def writes(self, ni):
+        r = self.r
+        out = []
+        for _ in range(r.choice([1, 1, 2])):
+            if r.random() < 0.1:
+                out.append(["synth", r.choice([0, 0, 1])])
+            else:
+                v = r.choice(MASKS18 if r.random() < 0.65 else [0, 0, 1])
+                out.append(["set", r.randrange(ni), r.randrange(3), v])
+        return out
+
+    def case(self, cid):
+        r = self.r
+        nk, ni, nl, ival, idur, members, tops = self.program()
+        rounds = r.randint(1, 3) if self.size == "quick" else r.randint(2, 4)
+        hist = []
+        for rd in range(rounds):
+            hist.append(self.group(members, tops))
+            if r.random() < 0.25:
+                q = r.choice(members + tops)
+                hist.append(["get", q[0], q[1]])
+            if rd + 1 < rounds:
+                hist += self.writes(ni)
+        probe = r.choice([1, 2, 2])
+        return sx(["case", cid, ["cfg", ["nk", nk], ["ni", ni], ["nf", 3], ["nfam", 5], ["spec", self.spec], ["probe", probe]],
+                   ["ival"] + ival, ["idur"] + idur, ["prog"] + nl, ["hist"] + hist])
+
+    def wcase(self, cid):
+        """C20 stage 2: readers inside nested fixpoints, cancelled by (or panicking before) a write.
+        The hold point AT is filled in by expand_wcases (one case per body execution)."""
+        r = self.r
+        nk, ni, nl, ival, idur, members, tops = self.nested_program() if r.random() < 0.8 else self.random_program()
+        nth = 1 if r.random() < 0.6 else 2
+        g = self.group(members, tops, nth=nth)
+        # the cancelling write shrinks an input (stale provisional values become non-least fixpoints)
+        i, f = r.randrange(ni), r.randrange(3)
+        w = ["set", i, f, r.choice([0, 0, 1, 2, 4])]
+        hist = [["wpar", 0, 0] + g[1:] + [["W", w]]]
+        after = list(members) + tops
+        r.shuffle(after)
+        hist += [["get", q[0], q[1]] for q in after]
+        w2 = ["set", r.randrange(ni), r.randrange(3), r.choice(MASKS18)]
+        g2 = self.group(members, tops, nth=nth)
+        hist += [["wpar", 0, 0] + g2[1:] + [["W", w2]]]
+        r.shuffle(after)
+        hist += [["get", q[0], q[1]] for q in after]
+        return sx(["case", cid, ["cfg", ["nk", nk], ["ni", ni], ["nf", 3], ["nfam", 5], ["spec", self.spec], ["probe", 0]],
+                   ["ival"] + ival, ["idur"] + idur, ["prog"] + nl, ["hist"] + hist])
+
+
+def generate18(seed, profile, n, size, prefix="k"):
+    rng = random.Random(f"{seed}/c18/{profile}/{size}")
+    g = Gen18(rng, profile, size)
+    return [g.case(f"{prefix}{i}") for i in range(n)]
+
+
+def generate_w(seed, n, size, prefix="w"):
+    rng = random.Random(f"{seed}/c20w/{size}")
+    g = Gen18(rng, "fix", size)
+    return [g.wcase(f"{prefix}{i}") for i in range(n)]
+
+
+def with_hold(case_text, cid, settings):
+    """settings: one (mode, at) per wpar group, in order"""
+    tree = se.parse_sx(case_text)
+    tree[1] = cid
+    n = 0
+    for op in hist_of(tree)[1:]:
+        if op[0] == "wpar":
+            op[1], op[2] = str(settings[n][0]), str(settings[n][1])
+            n += 1
+    return sx(tree)
+
+
+def flatten18(case_text):
+    """-> (sequential case text for ocaml/cycle_driver.ml, index map, revision-of-op map).
+    index map: flat op index -> (op index, who, pos); rev map: op index -> number of writes before it
+    (0 = the first revision: a fresh database)."""
+    tree = se.parse_sx(case_text)
+    h = hist_of(tree)
+    flat, imap, revof = [], {}, {}
+    nwrites = 0
+    for idx, op in enumerate(h[1:]):
+        revof[idx] = nwrites
+        if op[0] in ("par", "wpar"):
+            ths = [t for t in op[1:] if isinstance(t, list) and t and t[0] == "T"]
+            for t, th in enumerate(ths):
+                for pos, g in enumerate(th[1:]):
+                    imap[len(flat)] = (idx, str(t), pos)
+                    flat.append(g)
+            if op[0] == "wpar":
+                w = next(t for t in op[1:] if isinstance(t, list) and t and t[0] == "W")
+                flat.append(w[1])
+                nwrites += 1
+        else:
+            if op[0] == "get":
+                imap[len(flat)] = (idx, "m", 0)
+            else:
+                nwrites += 1
+            flat.append(op)
+    h[1:] = flat
+    cfg = tree_section(tree, "cfg")
+    cfg[:] = [c for c in cfg if not (isinstance(c, list) and c and c[0] == "probe")]
+    return sx(tree), imap, revof
+
+
+def specification18(cases, cycle_driver):
+    """-> {case id: dict(spec={(op, who, pos): 'N'}, rev={op: n}, mono=bool|None)}"""
+    flats, maps = [], {}
+    for c in cases:
+        ft, imap, revof = flatten18(c)
+        flats.append(ft)
+        maps[c.split()[1]] = (imap, revof)
+    out = run_driver(flats, cycle_driver)
+    res = {}
+    for cid, (imap, revof) in maps.items():
+        lines = out.get(cid)
+        if lines is None:
+            raise common.CheckError(f"cycle driver produced nothing for case {cid}")
+        d = se.split_lines(lines)
+        if d["ERROR"]:
+            raise common.CheckError(f"cycle driver error on case {cid}: {d['ERROR'][:2]}")
+        sp = {}
+        for fi, key in imap.items():
+            v = d["V"].get(fi)
+            if v is None or not v.startswith("ret "):
+                raise common.CheckError(f"no specification value for case {cid} op {fi}: {v}")
+            sp[key] = v.split()[1]
+        mono = None
+        for l in lines:
+            if l.startswith("H "):
+                mono = l.strip() == "H 1"
+        res[cid] = dict(spec=sp, rev=revof, mono=mono)
+    return res
+
+
+def parse_harness18(text):
+    cases, cur = {}, None
+    for line in text.split("\n"):
+        if line.startswith("CASE "):
+            cur = dict(ref=None, refg=[], refo=[], iters=[], gs={}, fails=[], end=None, errors=[])
+            cases[line[5:].strip()] = cur
+        elif cur is None:
+            continue
+        elif line.startswith("REF "):
+            cur["ref"] = line.split("r=", 1)[1]
+        elif line.startswith("RG "):
+            cur["refg"].append(parse_g(line[3:]))
+        elif line.startswith("REFO "):
+            cur["refo"].append(line.split("r=", 1)[1])
+        elif line.startswith("I "):
+            m = re.match(r"I (\d+) b=(\d+) c=(\d+) x=(\d+) y=(\d+) tr=(\d+) xt=(\d+) so=(\d+) it=(\d+) hd=(\d) h=(\S+) t=(\S+) r=(\S*)", line)
+            if m:
+                g = m.groups()
+                cur["iters"].append(dict(i=int(g[0]), b=int(g[1]), c=int(g[2]), x=int(g[3]), y=int(g[4]), tr=int(g[5]),
+                                         xt=int(g[6]), so=int(g[7]), it=int(g[8]), hd=int(g[9]), h=g[10], t=g[11], r=g[12]))
+        elif line.startswith("G "):
+            it, rest = line[2:].split(" ", 1)
+            cur["gs"].setdefault(int(it), []).append(parse_g(rest))
+        elif line.startswith("F "):
+            m = re.match(r"F (\d+) kind=(\S+) sched=(\S+) (.*)", line)
+            if m:
+                cur["fails"].append(dict(i=int(m.group(1)), kind=m.group(2), sched=m.group(3), msg=m.group(4)))
+        elif line.startswith("END "):
+            cur["end"] = line
+        elif line.startswith("SKIPPED "):
+            cur["skipped"] = True
+        elif line.startswith("ERROR"):
+            cur["errors"].append(line)
+    return cases
+
+
+def parse_g(rest):
+    """'<op> cur=N px=N s=F.K=V,.. u=F.K,..' -> dict"""
+    m = re.match(r"(\d+) cur=(\d+) px=(\d+) s=(\S+) u=(\S+)", rest)
+    s = {} if m.group(4) == "-" else dict(x.split("=") for x in m.group(4).split(","))
+    u = [] if m.group(5) == "-" else m.group(5).split(",")
+    return dict(op=int(m.group(1)), cur=int(m.group(2)), px=int(m.group(3)), s=s, u=u)
+
+
+def run_harness18(cases, harness_bin, iters, sched, seed, trace_dir=None, trace_cap=10, shards=6,
+                  pct_depth=3, max_steps=400000, timeout=3000, ref_orders=0):
+    os.makedirs(os.path.join(common.BUILD, "cases"), exist_ok=True)
+    tmpd = tempfile.mkdtemp(prefix="cyc", dir=os.path.join(common.BUILD, "cases"))
+    chunks = [cases[i::shards] for i in range(shards) if cases[i::shards]]
+    procs = []
+    for n, ch in enumerate(chunks):
+        path = os.path.join(tmpd, f"cases{n}.txt")
+        with open(path, "w") as f:
+            f.write("\n".join(ch) + "\n")
+        cmd = [harness_bin, path, "--iters", str(iters), "--sched", sched, "--seed", str(seed),
+               "--pct-depth", str(pct_depth), "--max-steps", str(max_steps), "--trace-cap", str(trace_cap)]
+        if ref_orders:
+            cmd += ["--ref-orders", str(ref_orders)]
+        if trace_dir:
+            cmd += ["--trace-dir", trace_dir]
+        procs.append(subprocess.Popen(cmd, stdout=subprocess.PIPE, stderr=subprocess.DEVNULL, text=True))
+    out = {}
+    hung = False
+    for p in procs:
+        o, _ = p.communicate(timeout=timeout)
+        if p.returncode == 3:
+            hung = True
+        elif p.returncode != 0:
+            raise common.CheckError(f"{CYC_BIN} exited with {p.returncode}:\n{o[-1500:]}")
+        out.update(parse_harness18(o))
+    import shutil
+    shutil.rmtree(tmpd, ignore_errors=True)
+    return out, hung
+
+
+def check_case18(cid, sp, out, accept=("p8",)):
+    """Per schedule: every returned value equals the specification.  A difference in a later
+    revision that the single-threaded REF run of the same history shows as well is the cycle
+    engine's known finding; everything else is a finding of this check.
+    accept: panic codes a reader of a `wpar` group may end with instead of a value.
+    -> (findings, known) ; finding = dict(kind=values|failure|reference|harness, iter, detail)"""
+    res, known = [], []
+    o = out.get(cid)
+    if o is not None and o.get("skipped"):
+        return [], []
+    if o is None or o["ref"] is None:
+        return [dict(kind="harness", iter=-1, detail="no output for the case")], []
+    if o["errors"]:
+        return [dict(kind="harness", iter=-1, detail=o["errors"][0])], []
+    spec, revof = sp["spec"], sp["rev"]
+    ref = parse_results(o["ref"])
+    for key, want in spec.items():
+        g = ref.get(key)
+        if g != want:
+            if revof[key[0]] == 0:
+                res.append(dict(kind="reference", iter=-1,
+                                detail=dict(request=list(key), got=g, want=want, revision=0)))
+                break
+            known.append(dict(iter=-1, request=list(key), got=g, want=want, revision=revof[key[0]]))
+    for it in o["iters"]:
+        got = parse_results(it["r"])
+        for key, want in spec.items():
+            g = got.get(key)
+            if g == want or g in accept:
+                continue
+            d = dict(request=list(key), got=g, want=want, revision=revof[key[0]], single_threaded=ref.get(key))
+            if revof[key[0]] > 0 and ref.get(key) == g:
+                known.append(dict(iter=it["i"], **d))
+            else:
+                res.append(dict(kind="values", iter=it["i"], detail=d))
+                break
+    for f in o["fails"]:
+        res.append(dict(kind="failure", iter=f["i"], detail=f))
+    return res, known
+
+
+def stats18(out):
+    keys = ("schedules", "with_wait", "with_cross_thread_cycle_answer", "with_transfer", "with_cross_thread_transfer",
+            "with_reclaim_by_new_owner", "with_iteration_ge2", "transfer_records", "cross_thread_transfer_records", "hold_reached")
+    st = dict.fromkeys(keys, 0)
+    distinct, distinct_x = set(), set()
+    for cid, o in out.items():
+        for it in o["iters"]:
+            st["schedules"] += 1
+            distinct.add((cid, it["h"]))
+            st["with_wait"] += it["b"] > 0
+            st["with_cross_thread_cycle_answer"] += it["y"] > 0
+            st["with_transfer"] += it["tr"] > 0
+            st["with_cross_thread_transfer"] += it["xt"] > 0
+            st["with_reclaim_by_new_owner"] += it["so"] > 0
+            st["with_iteration_ge2"] += it["it"] >= 2
+            st["transfer_records"] += it["tr"]
+            st["cross_thread_transfer_records"] += it["xt"]
+            st["hold_reached"] += it["hd"]
+            if it["y"] > 0 or it["xt"] > 0:
+                distinct_x.add((cid, it["h"]))
+    st["distinct_protocol_traces"] = len(distinct)
+    st["distinct_with_cross_thread_cycle_or_transfer"] = len(distinct_x)
+    return st
+
+
+# ---- certificates on the multi-threaded final states
+
+def snapshot_at(tree, opidx):
+    """input values after the writes of ops 0..opidx (inclusive; a wpar's write included)"""
+    vals = {}
+    for t in tree_section(tree, "ival")[1:]:
+        vals[(int(t[0]), int(t[1]))] = int(t[2])
+    for idx, op in enumerate(hist_of(tree)[1:]):
+        if idx > opidx:
+            break
+        w = None
+        if op[0] == "set":
+            w = op
+        elif op[0] == "wpar":
+            w = next(t for t in op[1:] if isinstance(t, list) and t and t[0] == "W")[1]
+        if w is not None and w[0] == "set":
+            vals[(int(w[1]), int(w[2]))] = int(w[3])
+    return vals
+
+
+def cert_requests(cases, out):
+    """one certificate request per distinct (case, round, settled assignment, returned values)"""
+    reqs, owners = {}, {}
+    for c in cases:
+        cid = c.split()[1]
+        o = out.get(cid)
+        if not o:
+            continue
+        tree = se.parse_sx(c)
+        cfg = tree_section(tree, "cfg")
+        for it in o["iters"]:
+            got = parse_results(it["r"])
+            for g in o["gs"].get(it["i"], []):
+                snap = snapshot_at(tree, g["op"])
+                resl = sorted((k[1], g_.split(".")[0], g_.split(".")[1], v) for k, v in got.items() if k[0] == g["op"] and k[1] != "m"
+                              for g_ in [_req_key(tree, k)] if not v.startswith("p"))
+                sig = sorted(g["s"].items())
+                if any(v.startswith("p") for _, v in sig):
+                    sig = [(k, v) for k, v in sig if not v.startswith("p")]
+                key = (cid, g["op"], tuple(sig), tuple(resl))
+                if key not in reqs:
+                    rid = f"r{len(reqs)}"
+                    reqs[key] = sx(["cert", rid, cfg, tree_section(tree, "prog"),
+                                    ["in"] + [[i, f, v] for (i, f), v in sorted(snap.items())],
+                                    ["sigma"] + [[k.split(".")[0], k.split(".")[1], v] for k, v in sig],
+                                    ["res"] + [[h, f, k, v] for h, f, k, v in resl]])
+                    owners[rid] = []
+                owners[reqs[key].split()[1]].append((cid, it["i"], g["op"], g["px"], len(g["u"])))
+    return list(reqs.values()), owners
+
+
+def _req_key(tree, key):
+    """(op, who, pos) -> 'F.K' of that request"""
+    op = hist_of(tree)[1:][key[0]]
+    ths = [t for t in op[1:] if isinstance(t, list) and t and t[0] == "T"]
+    g = ths[int(key[1])][1:][key[2]]
+    return f"{g[1]}.{g[2]}"
+
+
+def run_cert_driver(requests, driver_bin, shards=4):
+    """-> {request id: dict(cert=0|1, below=0|1, eq=0|1, n=settled, nres=results)}"""
+    if not requests:
+        return {}
+    os.makedirs(os.path.join(common.BUILD, "cases"), exist_ok=True)
+    procs = []
+    for ch in [requests[i::shards] for i in range(shards) if requests[i::shards]]:
+        fd, path = tempfile.mkstemp(prefix="cert", suffix=".txt", dir=os.path.join(common.BUILD, "cases"))
+        with os.fdopen(fd, "w") as f:
+            f.write("\n".join(ch) + "\n")
+        procs.append((path, subprocess.Popen([driver_bin, path], stdout=subprocess.PIPE, stderr=subprocess.DEVNULL, text=True)))
+    res = {}
+    for path, p in procs:
+        o, _ = p.communicate(timeout=1800)
+        os.unlink(path)
+        if p.returncode != 0:
+            raise common.CheckError(f"certificate driver exited with {p.returncode}")
+        for l in o.split("\n"):
+            m = re.match(r"CERT (\S+) cert=(\d) below=(\d) eq=(\d) n=(\d+) nres=(\d+)", l)
+            if m:
+                res[m.group(1)] = dict(cert=int(m.group(2)), below=int(m.group(3)), eq=int(m.group(4)),
+                                       n=int(m.group(5)), nres=int(m.group(6)))
+            elif l.startswith("ERROR"):
+                raise common.CheckError("certificate driver: " + l)
+    return res
